@@ -225,10 +225,11 @@ func (p *inlineParser) render() {
 				}
 			case '?':
 				// Try parsing a processing instruction.
-				closer := strings.Index(p.text[p.pos:], "?>")
+				// The closing ?> may not overlap with the opening <?.
+				closer := strings.Index(p.text[p.pos+1:], "?>")
 				if closer != -1 {
-					p.buf.push(htmlPiece(p.text[begin : p.pos+closer+2]))
-					p.pos += closer + 2
+					p.pos += 1 + closer + 2
+					p.buf.push(htmlPiece(p.text[begin:p.pos]))
 					continue
 				}
 			case '/':
